@@ -41,17 +41,49 @@ theorem decRecs_length : ∀ (n : Nat) (b : Bytes) (recs : List Bytes), decRecs 
           injection h with h; subst h
           simp [decRecs_length n _ l hl]
 
+theorem readVLen_length_lt (b : Bytes) (le : Nat) (r : Bytes) (h : readVLen b = some (le, r)) : r.length < b.length := by
+  unfold readVLen at h
+  split at h
+  · cases h
+  · rename_i hd t
+    split at h
+    · injection h with h; injection h with _ h; subst h; simp
+    · simp only at h
+      split at h
+      · cases h
+      · injection h with h; injection h with _ h; subst h
+        have := Nat.two_pow_pos (2 - (0xff - hd.toNat))
+        simp [Nat.shiftLeft_eq] at *; omega
+
+theorem decRecs_count_le : ∀ (n : Nat) (b : Bytes) (recs : List Bytes), decRecs n b = some recs → n ≤ b.length
+  | 0, _, _, _ => Nat.zero_le _
+  | n + 1, b, recs, h => by
+    simp only [decRecs] at h
+    split at h
+    · cases h
+    · rename_i le r hv
+      split at h
+      · cases h
+      · split at h
+        · cases h
+        · rename_i l hl
+          have := decRecs_count_le n _ l hl
+          have := readVLen_length_lt b le r hv
+          simp only [List.length_drop] at *
+          omega
+
 /-- a readable record area: the loop ends normally, the packs sent plus the unsent rest are what was there before
     followed by the records of the file, in order -/
-theorem readLoop_ok (sh : RetryShape) :
+theorem readLoop_ok (sh : RetryShape) (fsize : Nat) :
     ∀ (n : Nat) (b : Bytes) (st : LoopSt) (recs : List Bytes), decRecs n b = some recs → st.recIdx < sh.pack →
-      ∃ st', readLoop sh n b st = (true, st') ∧ st'.recIdx < sh.pack ∧
+      b.length ≤ fsize →
+      ∃ st', readLoop sh fsize n b st = (true, st') ∧ st'.recIdx < sh.pack ∧
         st'.ins ++ slots st'.cur st'.recIdx = st.ins ++ slots st.cur st.recIdx ++ recs ∧
         st'.dataSize = st.dataSize + dataSizeOf recs
-  | 0, _, st, recs, h, hi => by
+  | 0, _, st, recs, h, hi, _ => by
     simp [decRecs] at h; subst h
     exact ⟨st, rfl, hi, by simp, by simp [dataSizeOf]⟩
-  | n + 1, b, st, recs, h, hi => by
+  | n + 1, b, st, recs, h, hi, hb => by
     simp only [decRecs] at h
     split at h
     · cases h
@@ -65,29 +97,34 @@ theorem readLoop_ok (sh : RetryShape) :
           injection h with h; subst h
           have hle : le ≤ r.length := (shorter_false_iff r le).mp (by simpa using hs)
           have hlen : (r.take le).length = le := by simp; omega
-          simp only [readLoop, hv, hs]
+          have hrl := readVLen_length_lt b le r hv
+          have hg : (sh.boundsLen && decide (fsize < le)) = false := by
+            have : ¬ fsize < le := by omega
+            simp [this]
+          have hb' : (r.drop le).length ≤ fsize := by simp; omega
+          simp only [readLoop, hv, hs, hg]
           by_cases hr : st.recIdx + 1 = sh.pack
           · simp only [hr, ↓reduceIte]
             have hp : 0 < sh.pack := by omega
-            obtain ⟨st', e, hi', hins, hds⟩ := readLoop_ok sh n (r.drop le)
+            obtain ⟨st', e, hi', hins, hds⟩ := readLoop_ok sh fsize n (r.drop le)
               ⟨0, (st.poolIdx + 1) % sh.buffers, updPool st.pool st.poolIdx (setSlot st.cur st.recIdx (r.take le)),
                 updPool st.pool st.poolIdx (setSlot st.cur st.recIdx (r.take le)) ((st.poolIdx + 1) % sh.buffers),
-                st.ins ++ slots (setSlot st.cur st.recIdx (r.take le)) sh.pack, st.dataSize + le⟩ l hl hp
+                st.ins ++ slots (setSlot st.cur st.recIdx (r.take le)) sh.pack, st.dataSize + le⟩ l hl hp hb'
             refine ⟨st', by simpa using e, hi', ?_, ?_⟩
             · rw [hins]; simp only [slots_zero, List.append_nil]
               rw [← hr, slots_setSlot]; simp
             · rw [hds, dataSizeOf_cons, hlen]; simp only; omega
           · simp only [hr, ↓reduceIte]
-            obtain ⟨st', e, hi', hins, hds⟩ := readLoop_ok sh n (r.drop le)
+            obtain ⟨st', e, hi', hins, hds⟩ := readLoop_ok sh fsize n (r.drop le)
               ⟨st.recIdx + 1, st.poolIdx, st.pool, setSlot st.cur st.recIdx (r.take le), st.ins, st.dataSize + le⟩ l hl
-              (by simp only; omega)
+              (by simp only; omega) hb'
             refine ⟨st', by simpa using e, hi', ?_, ?_⟩
             · rw [hins]; simp only; rw [slots_setSlot]; simp
             · rw [hds, dataSizeOf_cons, hlen]; simp only; omega
 
 /-- an unreadable record area: `goto fatal_error` -/
-theorem readLoop_fail (sh : RetryShape) :
-    ∀ (n : Nat) (b : Bytes) (st : LoopSt), decRecs n b = none → (readLoop sh n b st).1 = false
+theorem readLoop_fail (sh : RetryShape) (fsize : Nat) :
+    ∀ (n : Nat) (b : Bytes) (st : LoopSt), decRecs n b = none → (readLoop sh fsize n b st).1 = false
   | 0, _, _, h => by simp [decRecs] at h
   | n + 1, b, st, h => by
     simp only [decRecs] at h
@@ -95,14 +132,18 @@ theorem readLoop_fail (sh : RetryShape) :
     · rename_i hv; simp [readLoop, hv]
     · rename_i le r hv
       split at h
-      · rename_i hs; simp [readLoop, hv, hs]
+      · rename_i hs
+        simp only [readLoop, hv, hs]
+        split <;> simp
       · rename_i hs
         split at h
         · rename_i hn
           simp only [readLoop, hv, hs]
-          by_cases hr : st.recIdx + 1 = sh.pack
-          · simp only [hr, ↓reduceIte]; exact readLoop_fail sh n _ _ hn
-          · simp only [hr, ↓reduceIte]; exact readLoop_fail sh n _ _ hn
+          split
+          · rfl
+          · by_cases hr : st.recIdx + 1 = sh.pack
+            · simp only [hr, ↓reduceIte, Bool.false_eq_true]; exact readLoop_fail sh fsize n _ _ hn
+            · simp only [hr, ↓reduceIte, Bool.false_eq_true]; exact readLoop_fail sh fsize n _ _ hn
         · cases h
 
 /-- nothing of an earlier attempt is left in the variables -/
@@ -127,9 +168,14 @@ theorem attempt_ok (sh : RetryShape) (hc : sh.Cleans) (v : LoadVars) (hv : v.Cle
     · cases h
     · rename_i recs hr
       injection h with h; subst h
-      obtain ⟨st', e, _, hins, hds⟩ := readLoop_ok sh _ _
+      have hcnt := decRecs_count_le _ _ recs hr
+      have hg : (sh.boundsCount && decide (f.length < leVal ((f.drop 40).take 8))) = false := by
+        have : ¬ f.length < leVal ((f.drop 40).take 8) := by simp only [List.length_drop] at hcnt; omega
+        simp [this]
+      simp only [hg, Bool.false_eq_true, ↓reduceIte]
+      obtain ⟨st', e, _, hins, hds⟩ := readLoop_ok sh f.length _ _
         ⟨v.recIdx, v.poolIdx, v.pool, v.pool v.poolIdx, if sh.freshMaps = true then [] else v.ins, v.dataSize⟩ recs hr
-        (by simp only; omega)
+        (by simp only; omega) (by simp)
       simp only [h0, hd, hf, ↓reduceIte, slots_zero, List.nil_append, Nat.zero_add, List.append_nil] at e hins hds
       simp only [h0, hd, hf, ↓reduceIte, e, loadedOf, hins, hds, decRecs_length _ _ _ hr]
 
@@ -149,11 +195,12 @@ theorem attempt_fail (sh : RetryShape) (hc : sh.Cleans) (v : LoadVars) (hv : v.C
       simp only at h
       split at h
       · rename_i hn
-        have := readLoop_fail sh _ _
-          ⟨v.recIdx, v.poolIdx, v.pool, v.pool v.poolIdx, if sh.freshMaps = true then [] else v.ins, v.dataSize⟩ hn
-        generalize readLoop sh _ _ _ = res at this
+        split
+        · exact ⟨v, rfl, hv⟩
+        generalize hres : readLoop sh _ _ _ _ = res
+        have h1 : res.1 = false := by rw [← hres]; exact readLoop_fail sh _ _ _ _ hn
         obtain ⟨ok, st⟩ := res
-        simp only at this; subst this
+        simp only at h1; subst h1
         exact ⟨_, rfl, by simp [LoadVars.Clean, hr, hd, htt]⟩
       · cases h
 
@@ -183,6 +230,86 @@ theorem loadDir_exact (sh : RetryShape) (hc : sh.Cleans) (db old : Option Bytes)
       simp only [e2]
       obtain ⟨_, hd, ht⟩ := hv2
       simp [loadedOf, hd, ht, dataSizeOf]
+
+/-! ### what the loader asks the allocator for -/
+
+theorem mallocs_le (sh : RetryShape) (hb : sh.boundsLen = true) (fsize : Nat) :
+    ∀ (n : Nat) (b : Bytes), ∀ le ∈ mallocs sh fsize n b, le ≤ fsize
+  | 0, _, le, h => by simp [mallocs] at h
+  | n + 1, b, x, h => by
+    simp only [mallocs] at h
+    split at h
+    · simp at h
+    · rename_i le r hv
+      by_cases hg : fsize < le
+      · simp [hb, hg] at h
+      · simp only [hb, hg, decide_false, Bool.and_false, Bool.false_eq_true, ↓reduceIte] at h
+        split at h
+        · simp at h; omega
+        · simp only [List.mem_cons] at h
+          rcases h with h | h
+          · omega
+          · exact mallocs_le sh hb fsize n _ x h
+
+theorem mallocs_sum (sh : RetryShape) (hb : sh.boundsLen = true) (fsize : Nat) :
+    ∀ (n : Nat) (b : Bytes), (mallocs sh fsize n b).sum ≤ b.length + fsize
+  | 0, _ => by simp [mallocs]
+  | n + 1, b => by
+    simp only [mallocs]
+    split
+    · simp
+    · rename_i le r hv
+      have hrl := readVLen_length_lt b le r hv
+      by_cases hg : fsize < le
+      · simp [hb, hg]
+      · simp only [hb, hg, decide_false, Bool.and_false, Bool.false_eq_true, ↓reduceIte]
+        split
+        · simp; omega
+        · rename_i hs
+          have hle : le ≤ r.length := (shorter_false_iff r le).mp (by simpa using hs)
+          have := mallocs_sum sh hb fsize n (r.drop le)
+          simp only [List.sum_cons, List.length_drop] at *
+          omega
+
+/-- on a readable record area the requests are exactly the lengths of the records -/
+theorem mallocs_of_ok (sh : RetryShape) (fsize : Nat) :
+    ∀ (n : Nat) (b : Bytes) (recs : List Bytes), decRecs n b = some recs → b.length ≤ fsize →
+      mallocs sh fsize n b = recs.map List.length
+  | 0, _, recs, h, _ => by simp [decRecs] at h; subst h; rfl
+  | n + 1, b, recs, h, hb => by
+    simp only [decRecs] at h
+    split at h
+    · cases h
+    · rename_i le r hv
+      split at h
+      · cases h
+      · rename_i hs
+        split at h
+        · cases h
+        · rename_i l hl
+          injection h with h; subst h
+          have hle : le ≤ r.length := (shorter_false_iff r le).mp (by simpa using hs)
+          have hrl := readVLen_length_lt b le r hv
+          have hg : ¬ fsize < le := by omega
+          have ih := mallocs_of_ok sh fsize n (r.drop le) l hl (by simp; omega)
+          simp only [mallocs, hv, hg, decide_false, Bool.and_false, Bool.false_eq_true, ↓reduceIte, hs, ih,
+            List.map_cons, List.length_take]
+          congr 1; omega
+
+theorem memAsk_bounded (sh : RetryShape) (hc : sh.boundsCount = true) (hl : sh.boundsLen = true) (f : Bytes) :
+    (∀ c, (memAsk sh (some f)).mapsFor = some c → c ≤ f.length) ∧
+    (∀ le ∈ (memAsk sh (some f)).mallocs, le ≤ f.length) ∧
+    (memAsk sh (some f)).mallocs.sum ≤ 2 * f.length := by
+  unfold memAsk
+  by_cases h48 : f.length < 48
+  · simp [h48]
+  · by_cases hg : f.length < leVal ((f.drop 40).take 8)
+    · simp [h48, hc, hg]
+    · simp only [h48, ↓reduceIte, hc, hg, decide_false, Bool.and_false, Bool.false_eq_true]
+      refine ⟨fun c h => by injection h with h; omega, mallocs_le sh hl _ _ _, ?_⟩
+      have := mallocs_sum sh hl f.length (leVal ((f.drop 40).take 8)) (f.drop 48)
+      simp only [List.length_drop] at this
+      omega
 
 /-! ### a snapshot file that was cut short is never taken for a complete one -/
 
